@@ -9,8 +9,8 @@ CONSTANTS
   MaxNlv = 1
   DoEmit = FALSE
   Tol = 1
-  PairsMaxN = 60
-  Impl = TRUE
+  PairsMaxN = 200
+  Impl = FALSE
 CONSTRAINT Diag
 POSTCONDITION TraceAccepted
 CHECK_DEADLOCK FALSE
